@@ -20,6 +20,7 @@ THEOREMS = [
     "c15_transcript", "c15_carrier_agnostic", "c15_expressible_everywhere",
     "c15_real_codec_stdio", "c15_real_codec_stdio_line", "c15_real_codec_http", "c15_real_codec_sse",
     "c15_real_transcript", "c15_helpers_agree",
+    "c15_media_type_spelling", "c15_label_irrelevant", "c15_labelled_transcripts",
 ]
 # Supplementary (Props/C15Supp.lean; never a verdict about C15): the MCPClient layer, the transport-selection
 # logic over the tables re-read from the source, the transport factory, several instances in one process
@@ -37,7 +38,7 @@ RULE = (
     "error of each class (named permanent, named transient, unnamed codes); ids as the client generated them; server "
     "JSON style in {compact,spaced}x{utf8,ascii}; per carrier random wire choices (stdio: CRLF, byte cuts inside "
     "characters; JSON: status, session, one-element array; SSE body: event field, spaces, comments before fields and before the blank line, interleaved data-less / comment-only / typed non-message events, CRLF, tail; legacy "
-    "SSE: pre-events, CRLF, cuts, position of the 202) latencies across poll boundaries and the three tie orders of the virtual-time loop (events, timers, io). Each conversation is run "
+    "SSE: pre-events, CRLF, cuts, position of the 202; every HTTP reply under a Content-Type in any case with any charset parameter, header names in any case, event streams with a leading BOM) latencies across poll boundaries and the three tie orders of the virtual-time loop (events, timers, io). Each conversation is run "
     "on every real carrier able to express it; compared: carrier vs carrier, carrier vs scripted conversation, "
     "carrier vs the four Lean model pipelines (driver `carrier`, alternately on the very bytes the server wrote and on "
     "the model's own encoding). conversations whose server texts exceed 30000 characters in total (the >= 64 KiB / >= 1 MiB cases) are judged by the model-free oracle only (carrier vs carrier vs script), not by the Lean pipelines; a model pipeline that gives no answer for a case is a machinery error (exit 2), never a divergence. non-trivial = distinct conversation with at least one exchange"
@@ -50,6 +51,9 @@ ASSUMPTIONS = [
     "a result is a JSON object (every MCP result is one); a non-object result is delivered by stdio (parse_message falls back to the response class) and rejected by the HTTP and SSE transports (JSONRPCMessage.model_validate) - outside the quantifier",
     "conversations are strictly sequential, one outstanding request at a time (concurrent callers: open known finding of C18); a caller that mutates a params object it handed to a call that gave up (the request may still be queued in a transport that sends serially) is outside: the carriers serialise at different moments",
     "HTTP with JSON bodies expresses only exchanges without notifications (one message per body)",
+    "integers in payloads fit in 64 bits (-2^63 .. 2^64-1, the domain of C17 `fits64`): outside it the carriers that decode with the json backend (stdio, legacy SSE, SSE bodies: orjson gives a float) and HTTP with JSON bodies (response.json(), stdlib: exact integer) hand different values to the caller; RFC 8259 section 6 calls such numbers not interoperable",
+    "the server writes well-formed UTF-8: one invalid byte ends the stdio reader (strict incremental decoder) while the HTTP paths substitute U+FFFD; neither delivers the conversation, and bytes that are no Unicode text are outside 'payload text of any Unicode content' (C05's junk lines are valid text too)",
+    "a reply's Content-Type names the kind of body it has (JSON media type for JSON, event-stream media type for event streams) in any spelling and with any parameters; a label of another kind is C11's decision table, not a carrier difference",
 ]
 
 PAIR_ORDER = H.CARRIERS
@@ -131,6 +135,14 @@ def to_py(t):
     return {"".join(map(chr, k)): to_py(v) for k, v in t["o"]}
 
 
+LABEL_CLASSES = {
+    "media-type-case": "the reply's media type is not written in lower case (media types are case-insensitive)",
+    "event-stream-label": "the event stream is labelled with another charset than UTF-8 or starts with a byte order mark "
+                          "(event streams are UTF-8 whatever the label says, and one leading BOM is not part of the first line)",
+}
+LABEL_CLASSES["consumer-slower-than-timeout"] = ("the consumer of the read stream does not read for longer than the transport's request timeout "
+                                                 "while more than a full read-stream buffer is queued in front of the reply")
+LABEL_CLASSES["id-twins"] = "the client used an integer id and its string twin (7 and \"7\") as request ids on one connection"
 MODEL_TEXT_LIMIT = 30000   # larger conversations: the four real carriers against each other and the script only
 
 
@@ -146,7 +158,7 @@ def features(case, obs=None):
             f.add("id:falsy" if not v else ("id:int" if isinstance(v, int) else "id:str"))
             f.add("raw-form:" + c.get("form", "request"))
             if c.get("pause"):
-                f.add("slow-consumer")
+                f.add("slow-consumer" + (":>transport-timeout" if c["pause"] >= G.SSE_TIMEOUT_TICKS else ""))
         elif c.get("id") is not None:
             f.add("id:int" if "i" in c["id"] else "id:str")
         for key in ("progress", "reuse"):
@@ -173,12 +185,21 @@ def features(case, obs=None):
         f.add("sequential>1")
     st = case.get("style") or {}
     f.add(f"style:{'spaced' if st.get('sp') else 'compact'}/{'ascii' if st.get('ascii') else 'utf8'}")
-    for key in ("order", "extra"):
+    for key in ("order", "extra", "nulls", "dup"):
         if st.get(key):
             f.add("style:" + key)
     f.add("tie:" + case.get("tie", "events"))
     if case.get("debug"):
-        f.add("logging:DEBUG")
+        f.add("logging:DEBUG" + (":formatting-handler" if case["debug"] == "format" else ""))
+    if case.get("stderr"):
+        f.add("stderr:" + case["stderr"])
+    for x in case["xs"]:
+        if x.get("idle"):
+            f.add("idle:hours" if x["idle"] >= 3600 * 1024 else "idle:>timeout")
+        if x["call"].get("cb_writes"):
+            f.add("callback-writes")
+        if x["call"].get("subclassed"):
+            f.add("params:subclassed")
     if case.get("twin", 1) > 1:
         f.add(f"instances:{case['twin']}")
     if case.get("reenter") is not None:
@@ -195,18 +216,32 @@ def features(case, obs=None):
     for a, b in zip(case["xs"], case["xs"][1:]):
         if canon(a["reply"]) == canon(b["reply"]) and ("error" in a["reply"] or "D" in a):
             f.add("same-failure-repeated")
-    for key in ("batch", "blank", "eof"):
+    for key in ("batch", "blank", "eof", "junk"):
         if (w.get("stdio") or {}).get(key):
             f.add("stdio:" + key)
+
+    def label(place, c, ctp="ctp"):
+        if c.get(ctp):
+            f.add(f"{place}:charset-label:" + ("utf-8" if not G.names_other_charset(c[ctp]) else "other"))
+        if c.get("mime", "").lower() != c.get("mime", ""):
+            f.add(f"{place}:media-type-case")
+        if c.get("bom"):
+            f.add(f"{place}:bom")
+        if c.get("hname"):
+            f.add("header-names:" + c["hname"])
     for c in ([w["json"]] if isinstance(w.get("json"), dict) else (w.get("json") or [])):
-        for key in ("batch", "all"):
+        for key in ("batch", "all", "junk"):
             if c.get(key):
                 f.add("json:" + key)
+        label("json", c)
         if c.get("sess") == "":
             f.add("session-empty")
     for b in ([w["httpsse"]] if isinstance(w.get("httpsse"), dict) else (w.get("httpsse") or [])):
         if b.get("trailing") or any(e.get("before") for e in b.get("evs") or []):
             f.add("httpsse:noise-events")
+        label("httpsse", b)
+    label("sse-stream", w.get("sse") or {})
+    label("sse-200", {"ctp200": (w.get("sse") or {}).get("ctp200")}, "ctp200")
     for key in ("m200", "eof", "untyped"):
         if (w.get("sse") or {}).get(key):
             f.add("sse:" + key)
@@ -240,9 +275,12 @@ class Conversations(Suite):
 
     def cases(self, ctx, budget):
         names = G.helper_names()
-        n = {"quick": 1000, "thorough": 20000, "search": 4000}[budget]
+        n = {"quick": 900, "thorough": 20000, "search": 4000}[budget]
         out = list(G.directed(ctx.sub_rng("c15", "directed"), names))
         out += G.sequences(ctx.sub_rng("c15", "sequences"), names)
+        out += G.label_matrix(ctx.sub_rng("c15", "labels"))
+        out += G.environment_matrix()
+        out += G.late_duplicates()
         out += G.cases(ctx.sub_rng("c15", budget), n, names)
         m = G.falsy_matrix(ctx.sub_rng("c15", "matrix"))
         out += m if budget != "quick" else ctx.sub_rng("c15", "matrix-sample").sample(m, 40)
@@ -273,7 +311,7 @@ class Conversations(Suite):
         st = case.get("style") or {}
         # the model renders the conversation itself (`rpcWire`) only for plainly written messages; otherwise
         # it is given the very texts / bytes / bodies the scripted server wrote
-        text_mode = (int(sha(case), 16) % 2 == 0 or after or bool(st.get("order") or st.get("extra"))
+        text_mode = (int(sha(case), 16) % 2 == 0 or after or bool(st.get("order") or st.get("extra") or st.get("nulls") or st.get("dup"))
                      or has_float(xs) or any("$TOK" in canon(x.get("notifs", [])) for x in xs)
                      or any(x.get("echo") for x in xs))
 
@@ -312,6 +350,8 @@ class Conversations(Suite):
         if jo:
             line["json"] = [{"id": tid(ids[k]), "status": c.get("status", 200), "sess": c.get("sess"), "batch": bool(c.get("batch"))}
                             for k, c in enumerate([(jw[ci] if ci < len(jw) else {}) for ci in calls])]
+            line["json_labels"] = [{"ct": J.cps(c.get("mime", "application/json") + (c.get("ctp") or "")), "bom": False}
+                                   for c in [(jw[ci] if ci < len(jw) else {}) for ci in calls]]
         else:
             line["json"] = None
         if after:
@@ -332,6 +372,9 @@ class Conversations(Suite):
                            "evs": evs, "eols": list(c.get("eols") or []), "tail": c.get("tail", "full"),
                            "trailing": [noise(n) for n in c.get("trailing") or []]})
         line["httpsse"] = bodies
+        # the declared metadata of each reply (`Model.Label`): header value as written, a BOM in front of the bytes
+        line["httpsse_labels"] = [{"ct": J.cps(c.get("mime", "text/event-stream") + (c.get("ctp") or "")), "bom": bool(c.get("bom"))}
+                                  for c in [(hw[ci] if ci < len(hw) else {}) for ci in calls]]
         eo = (obs.get("sse") or {}).get("wire") or {}
         if after or any(ew.get("m200") or []) or any(ew.get("untyped") or []):
             # the model's sender / stream schedule (`sseSchedule`) covers exchanges answered with 202 whose reply is
@@ -357,7 +400,7 @@ class Conversations(Suite):
                     "result": None if v["result"] is None else to_py(v["result"]),
                     "error": None if v["error"] is None else to_py(v["error"])}
         key = {"stdio": "stdio", "http_json": "json", "http_sse": "httpsse", "sse": "sse"}
-        return {c: (None if out.get(k) is None else [entry(v) for v in out[k]]) for c, k in key.items()} | {"bodies_ok": out.get("bodies_ok")}
+        return {c: (None if out.get(k) is None else [entry(v) for v in out[k]]) for c, k in key.items()} | {"bodies_ok": out.get("bodies_ok"), "labels_ok": out.get("labels_ok")}
 
     def compare(self, case, obs, m):
         if m.get("driver_failed"):
@@ -366,6 +409,8 @@ class Conversations(Suite):
             return None  # the carriers do not carry the conversation: reported by the oracle with this very input
         if m.get("bodies_ok") is False:
             return "generated SSE body choices are not conformant in the model's sense"
+        if m.get("labels_ok") is False:
+            return "generated reply labels do not name the kind of body they label (in the model's sense)"
         uns = self.unsendable(case)
         for c in PAIR_ORDER:
             o = self.masked(obs.get(c), uns)
@@ -409,8 +454,15 @@ class Conversations(Suite):
         if r is not None and any(v[1] == "StrRaises" for v in uns.values()):
             # one class, whatever form the loss takes afterwards (missing messages, shifted ids after a re-entry …)
             pair = r[0].split("/", 1)[1] if "/" in r[0] else r[0]
+            if isinstance(r[2], dict) and r[2].get("carrier"):
+                pair = r[2]["carrier"]   # the carrier that loses the rest of the conversation
             r = (f"after-unprintable-exception/{pair}",
                  "after a message whose serialisation raised an exception whose str() raises: " + r[1], r[2])
+        if r is not None and isinstance(r[2], dict) and r[2].get("carrier"):
+            # the declared metadata of a reply against its bytes: one class per dimension, whatever form the damage takes
+            cls = G.label_class(case, r[2]["carrier"])
+            if cls is not None:
+                r = (f"{cls}/{r[2]['carrier']}", LABEL_CLASSES[cls] + ": " + r[1], r[2])
         return r
 
     def _oracle_twins(self, case, view, uns):
